@@ -133,7 +133,7 @@ func (d *Deposit) Serialize(w *codec.EncodingWriter) error {
 }
 
 func (a *Deposit) ByteLength() uint64 {
-	return Eth1DataType.TypeByteLength()
+	return DepositType.TypeByteLength()
 }
 
 func (a *Deposit) FixedLength() uint64 {
